@@ -16,13 +16,15 @@
 (*   "plain"     valid; literal colours only                               *)
 (*   "empty"     valid (no rules)                                          *)
 (*   "undecodable" | "dirnamed" | "dangling" | "unserialisable"  faults    *)
+(*   "faultDefines" a fault that strikes AFTER the file's custom property  *)
+(*               x was collected (unserialisable CSS with a :root block)   *)
 (*   "cm"        a file whose name ends in _cm.css (never an input)        *)
 (*   "none"      slot unused                                               *)
 (* SharedTable = TRUE models the regression "table hoisted out of the      *)
 (* per-file loop"; the tool as it is has SharedTable = FALSE.              *)
 (***************************************************************************)
 EXTENDS Integers, Sequences, FiniteSets, TLC, BatchProps
-CONSTANTS NF, SharedTable, KeepCmInputs
+CONSTANTS NF, SharedTable, KeepCmInputs, LeakOnFault
 Slots == 1..NF
 Valid == ValidKinds
 Faults == FaultKinds
@@ -54,12 +56,13 @@ ProcessFile ==
   /\ pos <= Len(order)
   /\ LET s == order[pos]
          k == tree[s]
-         t0 == IF SharedTable THEN table ELSE {}
-         t1 == IF k \in {"defines", "usesOwn"} THEN t0 \cup {"x"} ELSE t0
+         t0 == IF SharedTable \/ LeakOnFault THEN table ELSE {}
+         t1 == IF k \in {"defines", "usesOwn", "faultDefines"} THEN t0 \cup {"x"} ELSE t0
      IN IF k \in Faults
-        THEN /\ errs' = errs \cup {s} /\ UNCHANGED <<outs, table>>              \* reported, skipped, run continues
+        THEN /\ errs' = errs \cup {s} /\ UNCHANGED outs                         \* reported, skipped, run continues
+             /\ table' = IF LeakOnFault THEN t1 ELSE table          \* (a shared table cleared only on success keeps x)
         ELSE /\ outs' = [f \in DOMAIN outs \cup {s} |-> IF f = s THEN Result(k, "x" \in t1) ELSE outs[f]]
-             /\ table' = t1 /\ UNCHANGED errs
+             /\ table' = (IF LeakOnFault /\ ~SharedTable THEN {} ELSE t1) /\ UNCHANGED errs   \* LeakOnFault: cleared after a successful write
   /\ pos' = pos + 1 /\ UNCHANGED <<tree, order, runNo, outs1>>
 
 \* second run over the same tree: outputs of run 1 now exist as *_cm.css files and are skipped by discovery
